@@ -354,6 +354,18 @@ class C06(Check):
                 else:
                     out.append((t, v))
             return out
+        def n5(ts):   # region of C06-empty-items-block: a rule written with an empty block `prelude { }`
+            out = []
+            i = 0
+            while i < len(ts):
+                if ts[i] == ('CHAR', '{') and i + 1 < len(ts) and ts[i + 1] == ('CHAR', '}'):
+                    while out and out[-1] not in (('CHAR', '}'), ('CHAR', ';'), ('CHAR', '{')):
+                        out.pop()
+                    i += 2
+                else:
+                    out.append(ts[i])
+                    i += 1
+            return out
         if n3(a) == n3(b):
             ctx.violate('layout preferences change a non-whitespace token', wit,
                         self.first_diff(a, b), known='C06-indent-inside-token')
@@ -363,6 +375,9 @@ class C06(Check):
         elif prefs['selectorCombinatorSpacer'] == '' and n3(n4(a)) == n3(n4(b)):
             ctx.violate('layout preferences change the token sequence', wit,
                         self.first_diff(a, b), known='C06-nth-plus-fusion')
+        elif not prefs['keepEmptyRules'] and (n5(a) != a or n5(b) != b) and n3(n4(n5(a))) == n3(n4(n5(b))):
+            ctx.violate('layout preferences change the token sequence', wit,
+                        self.first_diff(a, b), known='C06-empty-items-block')
         else:
             ctx.violate('layout preferences change the non-whitespace token sequence', wit, self.first_diff(a, b))
 
@@ -416,6 +431,20 @@ class C06(Check):
             ctx.violate('reparse differs from the documented effect', wit, self.first_diff(got, expected),
                         known='C06-nth-plus-fusion')
             return
+        # region of C06-nested-media-namespace: a declared namespace that is used only by selectors two or more
+        # @media levels deep (`_getUsedURIs` looks one level deep): its @namespace rule is dropped although used, and
+        # the reparse then loses the rules with the undeclared prefix. Compared without the @media subtrees and
+        # without those @namespace rules.
+        if prefs['keepUsedNamespaceRulesOnly']:
+            shallow = {u for u in sh._getUsedURIs() if isinstance(u, str)}
+            lost = O.used_uris(sh) - shallow
+            if lost:
+                def strip_ns(proj):
+                    return [r for r in proj if r[0] != 'media' and not (r[0] == 'namespace' and r[2] in lost)]
+                if n3(n4(strip_ns(got))) == n3(n4(strip_ns(expected))):
+                    ctx.violate('reparse differs from the documented effect', wit,
+                                self.first_diff(got, expected), known='C06-nested-media-namespace')
+                    return
         # region of C06-empty-items-block: a block that is written with nothing but white space inside
         if not prefs['keepEmptyRules']:
             g2 = self.drop_empty(got)
@@ -651,7 +680,7 @@ class C06(Check):
                     q[k] = im.defaults[k]
                 base, _ = im.serialize(sh, q)
                 return O.nontoks(res[1]) != O.nontoks(base[1])
-            if fid == 'C06-empty-items-block':
+            if fid in ('C06-empty-items-block', 'C06-nested-media-namespace'):
                 leaf = {k: prefs[k] for k in O.LEAF}
                 expected = im.with_prefs(leaf, lambda: O.effect(O.canon(sh), prefs, O.used_uris(sh)))
                 sh2 = im.parse(res[1])
